@@ -192,6 +192,14 @@ def r10_3(ctx: Ctx) -> None:
         if any("postponed_features" in txt(s) for s in loop.body):
             kinds = [txt(e) for e in loop.iter.elts]
     if not kinds:
+        # the list of classes may be a named local feeding a comprehension / constructor: a literal of feature classes
+        feature_classes = {c.name for c in ctx.repo.subclasses("Feature")}
+        for node in walk_local(func):
+            if isinstance(node, (ast.List, ast.Tuple)) and len(node.elts) >= 2 and all(isinstance(e, ast.Name) for e in node.elts) \
+                    and all(e.id in feature_classes for e in node.elts):
+                kinds = [e.id for e in node.elts]
+                break
+    if not kinds:
         raise AnalysisError("Record.from_biopython: postponed feature kinds not found")
     needs: Dict[str, Set[str]] = {}
     getters = {"get_protoclusters": "Protocluster", "get_candidate_clusters": "CandidateCluster", "get_subregions": "SubRegion",
